@@ -42,12 +42,17 @@ func c14Sinks() []sink {
 			}}}},
 			{Template: "/items/{id}", Params: []*spec.Param{{Name: "id", In: "path", Required: true, Schema: spec.TF("number", "double")}}, Ops: []*spec.Op{{Method: "DELETE", Responses: okResp()}}},
 			{Template: "/", Ops: []*spec.Op{{Method: "GET", Responses: okResp()}}},
+			// non-ASCII and quote-bearing constant segments in front of variables
+			{Template: "/café/{t}", Params: []*spec.Param{{Name: "t", In: "path", Required: true, Schema: spec.T("string")}}, Ops: []*spec.Op{{Method: "GET", Responses: okResp()}}},
+			{Template: "/café/{t}/menü/{i}", Params: []*spec.Param{{Name: "t", In: "path", Required: true, Schema: spec.T("string")}, {Name: "i", In: "path", Required: true, Schema: spec.TF("integer", "int32")}}, Ops: []*spec.Op{{Method: "GET", Responses: okResp()}}},
 		}
 		out = append(out, sink{name: "params", spec: s, ops: []drv.SinkOp{
 			{Method: "GET", Path: "/v1/items/7/bob", Query: "n=1&tags=a&tags=b&at=2020-01-02T03:04:05Z&ok=true&f=1.5&ids=1", Headers: map[string]string{"X-Req": "r", "X-N": "3", "X-At": "2020-01-02T03:04:05Z"},
 				QNames: []string{"n", "tags", "at", "ok", "f", "ids", "n=1"}, HNames: []string{"X-Req", "X-N", "X-At"}},
 			{Method: "DELETE", Path: "/v1/items/1.5"},
 			{Method: "GET", Path: "/v1/"},
+			{Method: "GET", Path: "/v1/café/5"},
+			{Method: "GET", Path: "/v1/café/5/menü/7"},
 		}})
 	}
 	// B: JSON bodies of every schema kind, and a raw body
